@@ -40,7 +40,7 @@ func groupFilter(s string) map[string]bool {
 func selectGroups(filter string) []string {
 	f := groupFilter(filter)
 	var out []string
-	for _, g := range groups.All() {
+	for _, g := range allGroups() {
 		if len(f) == 0 || f[g.Name] {
 			out = append(out, g.Name)
 		}
@@ -98,7 +98,7 @@ func Replay(cfg Config, res *core.Result) error {
 	var perr error
 	// build pools first (parallel over groups; formats shared between groups are cached)
 	core.Parallel(len(names), runtime.NumCPU(), func(i int) {
-		g := groups.ByName(names[i])
+		g := groupByName(names[i])
 		p, _, err := poolFor(g, cfg.Kind, cfg.Seed, cfg.Per)
 		mu.Lock()
 		if err != nil {
@@ -142,7 +142,7 @@ func Replay(cfg Config, res *core.Result) error {
 	}
 	core.Parallel(len(tasks), runtime.NumCPU(), func(i int) {
 		t := tasks[i]
-		g := groups.ByName(t.group)
+		g := groupByName(t.group)
 		pool := pools[t.group]
 		n := 0
 		for wi, w := range pool.By[t.cls] {
